@@ -72,6 +72,9 @@ class Server:
         self._kicked = False
         self.dropped: list[Msg] = []  # expired / rejected without DLX (lost by design of the topology)
         self.delivery_latency: Callable[[], float] = lambda: 0.0
+        # RabbitMQ does not order a publisher confirm against the Basic.Deliver of the same message to a consumer on the
+        # same connection: when set, the delivery callback runs before basic_publish returns (else after)
+        self.slow_confirm = False
 
     def declare(self, name: str, args: dict | None) -> None:
         if name not in self.queues:
@@ -232,6 +235,9 @@ class Channel:
             raise NotImplementedError("only the default exchange is modelled")
         ok = self.s.publish(routing_key, body, properties or spec.Basic.Properties())
         self.ncalls += 1
+        if self.s.slow_confirm:
+            await asyncio.sleep(0)
+            await asyncio.sleep(0)
         await self._lat()
         if ok:
             return spec.Basic.Ack(delivery_tag=0)
